@@ -120,24 +120,45 @@ Theorem c07_float_roundtrip : forall f rest, 0 <= f < 2 ^ 64 ->
 Proof. exact float_wire_roundtrip. Qed.
 Print Assumptions c07_float_roundtrip.
 
-(* what each codec delivers: whenever the frame crosses (V1 / V2, any threshold, with or without
-   the cipher) the receiver holds v1_result / v2_result of the sender's packet, and it does
-   cross whenever it fits the codec's size limit *)
-Theorem c07_wire_result : forall c thr enc p, coders_ok c -> clean (flg p) ->
-  (forall q, wire_v1 c thr enc enc p = Some q -> q = v1_result p) /\
-  (forall q, wire_v2 c thr enc enc p = Some q -> q = v2_result p) /\
+(* what each codec delivers, for EVERY 8-bit flag value on the sender's packet: the encoder
+   drops compression / encryption marks it finds (unmarked p), sets its own, the receiver clears
+   them; whenever the frame crosses (V1 / V2, any threshold, with or without the cipher) the
+   receiver holds v1_result / v2_result of the unmarked packet, and it does cross whenever it
+   fits the codec's size limit *)
+Theorem c07_wire_result : forall c thr enc p, coders_ok c -> 0 <= flg p < 256 ->
+  (forall q, wire_v1 c thr enc enc p = Some q -> q = v1_result (unmarked p)) /\
+  (forall q, wire_v2 c thr enc enc p = Some q -> q = v2_result (unmarked p)) /\
   (codec_V1HeaderSize + Z.of_nat (length (snd (marshal_body c thr enc p))) <= codec_V1MaxPayloadBytes ->
-     wire_v1 c thr enc enc p = Some (v1_result p)) /\
+     wire_v1 c thr enc enc p = Some (v1_result (unmarked p))) /\
   (Z.of_nat (length (refers p)) <= 255 ->
    codec_V2HeaderSize + 4 * Z.of_nat (length (refers p)) + Z.of_nat (length (snd (marshal_body c thr enc p)))
      <= codec_V2MaxPayloadBytes ->
-     wire_v2 c thr enc enc p = Some (v2_result p)).
+     wire_v2 c thr enc enc p = Some (v2_result (unmarked p))).
 Proof.
-  intros c thr enc p Hc Hcl. split; [intros q; exact (wire_v1_result c thr enc p q Hc Hcl)|].
-  split; [intros q; exact (wire_v2_result c thr enc p q Hc Hcl)|].
-  split; [exact (wire_v1_complete c thr enc p Hc Hcl)|exact (wire_v2_complete c thr enc p Hc Hcl)].
+  intros c thr enc p Hc Hf. split; [intros q; exact (wire_v1_result_any c thr enc p q Hc Hf)|].
+  split; [intros q; exact (wire_v2_result_any c thr enc p q Hc Hf)|].
+  split; [exact (wire_v1_complete_any c thr enc p Hc Hf)|exact (wire_v2_complete_any c thr enc p Hc Hf)].
 Qed.
 Print Assumptions c07_wire_result.
+
+(* the delivered packet field by field: every flag bit other than the two marks survives (the
+   error flag in particular), V1 carries command and seq, V2 also type, node and refers; without
+   the error flag the receiver's wire form is the sender's *)
+Theorem c07_wire_fields : forall p, 0 <= flg p < 256 ->
+  flg (v1_result (unmarked p)) = unmark (flg p) /\ flg (v2_result (unmarked p)) = unmark (flg p) /\
+  has_flag (unmark (flg p)) root_PFlagError = has_flag (flg p) root_PFlagError /\
+  cmd (v1_result (unmarked p)) = cmd p /\ seq (v1_result (unmarked p)) = seq p /\
+  cmd (v2_result (unmarked p)) = cmd p /\ seq (v2_result (unmarked p)) = seq p /\
+  typ (v2_result (unmarked p)) = typ p /\ node (v2_result (unmarked p)) = node p /\
+  refers (v2_result (unmarked p)) = refers p /\
+  (has_flag (flg p) root_PFlagError = false ->
+     body_to_bytes (pbody (v1_result (unmarked p))) = body_to_bytes (pbody p) /\
+     body_to_bytes (pbody (v2_result (unmarked p))) = body_to_bytes (pbody p)).
+Proof.
+  intros p Hf. destruct (header_any p Hf) as (A & B & C & D & E & F & G & H & I & J).
+  repeat (split; [assumption|]). exact (resend_any p Hf).
+Qed.
+Print Assumptions c07_wire_fields.
 
 (* "so every packet a decoder can produce can be sent on again": the decoded body is nil, bytes
    or an integer (kinds with a wire form), and without the error flag its wire form is exactly
@@ -163,24 +184,22 @@ Proof. intros p. split; [exact (v1_result_idem p)|exact (v2_result_idem p)]. Qed
 Print Assumptions c07_forward.
 
 (* "An error code placed on a packet is the code the receiver reads after the packet crossed the
-   wire": every int32 code, both codecs, any compression threshold, with or without the cipher *)
-Theorem c07_errno_wire : forall c thr enc e p q, coders_ok c -> clean (flg p) -> in_s 32 e ->
+   wire": every int32 code, every 8-bit flag value, both codecs, any compression threshold, with
+   or without the cipher *)
+Theorem c07_errno_wire : forall c thr enc e p q, coders_ok c -> 0 <= flg p < 256 -> in_s 32 e ->
   (wire_v1 c thr enc enc (set_errno e p) = Some q -> errno q = e) /\
   (wire_v2 c thr enc enc (set_errno e p) = Some q -> errno q = e).
-Proof.
-  intros c thr enc e p q Hc Hcl He.
-  split; [exact (errno_wire_v1 c thr enc e p q Hc Hcl He)|exact (errno_wire_v2 c thr enc e p q Hc Hcl He)].
-Qed.
+Proof. exact errno_wire_any. Qed.
 Print Assumptions c07_errno_wire.
 
 (* ... and the code does cross: with a threshold of at least the 10 bytes a varint can take
    (both codecs' defaults are thousands) and a length-preserving cipher (CFB) the frame is far
    below either size limit, so the receiver exists and reads the code *)
-Theorem c07_errno_crosses : forall c thr enc e p, coders_ok c -> clean (flg p) -> in_s 32 e ->
+Theorem c07_errno_crosses : forall c thr enc e p, coders_ok c -> 0 <= flg p < 256 -> in_s 32 e ->
   10 <= thr -> (forall b, length (encrypt c b) = length b) -> Z.of_nat (length (refers p)) <= 255 ->
   (exists q, wire_v1 c thr enc enc (set_errno e p) = Some q /\ errno q = e) /\
   (exists q, wire_v2 c thr enc enc (set_errno e p) = Some q /\ errno q = e).
-Proof. exact errno_crosses. Qed.
+Proof. exact errno_crosses_any. Qed.
 Print Assumptions c07_errno_crosses.
 
 (* the code is also what the sender itself reads, for every 8-bit flag value *)
@@ -257,11 +276,11 @@ Proof.
 Qed.
 Print Assumptions c07_proto.
 
-(* non-vacuity: the coders the correspondence check runs the model with satisfy coders_ok, a clean flag with other bits set exists, and
+(* non-vacuity: the coders the correspondence check runs the model with satisfy coders_ok, a flag value with both marks preset and other bits set is in range, and
    an error code really crosses both model codecs with compression and cipher switched on *)
 Example c07_example :
-  coders_ok tag_coders /\ clean 160 /\ in_s 32 (-8) /\
-  let p := mkPkt 1001 7 2 160 65537 BNil [5; 6] (Some 1) in
+  coders_ok tag_coders /\ 0 <= 163 < 256 /\ in_s 32 (-8) /\
+  let p := mkPkt 1001 7 2 163 65537 BNil [5; 6] (Some 1) in
   option_map errno (wire_v1 tag_coders 1 true true (set_errno (-8) p)) = Some (-8) /\
   option_map errno (wire_v2 tag_coders 1 true true (set_errno (-8) p)) = Some (-8) /\
   option_map (fun q => (flg q, refers q)) (wire_v2 tag_coders 1 true true (set_errno (-8) p)) = Some (176, [5; 6]).
@@ -273,7 +292,7 @@ Proof.
     + intros b. cbn. rewrite map_map. rewrite <- (map_id b) at 2. apply map_ext. intros x.
       rewrite Z.lxor_assoc, Z.lxor_nilpotent, Z.lxor_0_r. reflexivity.
     + intros b Hb. destruct b; [congruence|discriminate].
-  - split; [unfold clean; vm_compute; repeat split; discriminate|].
+  - split; [split; [discriminate|reflexivity]|].
     split; [unfold in_s; vm_compute; split; discriminate || reflexivity|].
     cbv zeta. repeat split; vm_compute; reflexivity.
 Qed.
